@@ -5,6 +5,7 @@ mod logparse;
 mod models;
 mod prng;
 mod props_git;
+mod props_log;
 mod props_run;
 mod props_store;
 mod proto;
@@ -24,6 +25,7 @@ fn props() -> Vec<Box<dyn Property>> {
         Box::new(props_git::C02),
         Box::new(props_git::C07),
         Box::new(props_git::C19),
+        Box::new(props_log::C08),
         Box::new(props_store::C12),
         Box::new(props_store::C13),
     ]
